@@ -270,7 +270,7 @@ pub fn run_e2e(ctx: Ctx) -> Report {
         let mut set = tokio::task::JoinSet::new();
         for (label, preamble, good) in cases {
             uniq += 1;
-            let ip = Ipv4Addr::new(127, 44, (uniq >> 8) as u8, (uniq as u8).clamp(1, 254));
+            let ip = netkit::uniq_ip(44, uniq);
             let server_addr = server_addr.clone();
             let results = results.clone();
             set.spawn(async move {
